@@ -63,6 +63,11 @@ USER = [
                                                  F("f11", "CV3"), F("f12", "Vec<CE1>"), F("f13", "Option<Vec<u64>>"), F("f14", "Option<Vec<u8>>"), F("f15", "i32"),
                                                  F("f16", "Vec<bool>"), F("f17", "String"), F("f18", "Option<CV1>")]),
     dict(name="U24", derive="DbType", fields=[F("db_id", "Option<DbId>"), F("inner", "I24", flatten=True), F("z", "Option<Vec<String>>")]),
+    # attribute COMBINATIONS (each attribute alone is covered above): rename on optional / vector / custom-value fields, next to skipped ones
+    dict(name="U25", derive="DbType", fields=[F("db_id", "Option<DbId>"), F("email", "Option<String>", rename="e-mail"), F("age", "Option<u64>", rename="years"),
+                                              F("tags", "Vec<String>", rename="labels"), F("plain", "Option<i64>")]),
+    dict(name="U26", derive="DbElement", fields=[F("db_id", "Option<QueryId>"), F("cv", "Option<CV1>", rename="custom"), F("ov", "Option<Vec<u64>>", rename="numbers"),
+                                                 F("tmp", "u64", skip=True), F("name", "String", rename="n")]),
 ]
 
 ID_TYPES = ("Option<DbId>", "Option<QueryId>", "DbId", "QueryId")
